@@ -12,6 +12,24 @@ from .front import dropped_nodes
 DEFAULT_UNROLL = 70
 
 
+def _mentions(term, vars_):
+    if not vars_:
+        return False
+    ids = set(v.get_id() for v in vars_)
+    seen = set()
+    stack = [term]
+    while stack:
+        t = stack.pop()
+        i = t.get_id()
+        if i in seen:
+            continue
+        seen.add(i)
+        if i in ids:
+            return True
+        stack.extend(t.children())
+    return False
+
+
 def _is_star(x):
     return isinstance(x, str) and x == '*'
 
@@ -56,7 +74,7 @@ class Engine:
         self.solver = SolverStack()
         self.str_ids = {}
         self.ufuns = {}
-        self.T_ANY = TUnion(NONE, INT, REAL, BOOL, TList(INT), TFunc(), TRef(None), STR)
+        self.T_ANY = T_ANY
         self.result = UnitResult(unit)
         self.loop_ordinals = {}
         self.cls_ids = {}
@@ -226,6 +244,7 @@ class Engine:
             i = st.branch(conds, 'cases')
             # make the chosen value concrete where the expression is a plain field / parameter
             self.concretize_expr(it, st, c.args[0], vals[i])
+        st.trace_wf()
         st.old = st.snapshot()
         st.entry_env = dict(env)
         st.entry_clock = st.clock
@@ -551,6 +570,12 @@ class Engine:
         st = it.st
         fn = self.fn_const(fi.qual)
         self.emit_event(it, st, fn, args, kwargs)
+        for c in self.unit.of('opaque_raises'):
+            if ast.literal_eval(c.args[0]) == fi.qual:
+                excs = [ast.literal_eval(a) for a in c.args[1:]]
+                k = st.branch([z3.BoolVal(True)] * (len(excs) + 1), 'opaque_raises')
+                if k > 0:
+                    raise PyRaise(VExc(excs[k - 1], ()))
         eff = [ast.literal_eval(c.args[0]) for c in self.unit.of('effects')]
         if eff and eff[0] == 'everything':
             self.havoc_everything(st, keep_trace=True)
@@ -564,6 +589,11 @@ class Engine:
             return self.fresh_any(st)
         return self.sym_value(st, T_, 'ret!%d' % next(st.fresh_counter))
 
+    def fresh_arr(self, st, base, sort):
+        c = st.fresh(base, sort)
+        st.ghost.setdefault('created_arrays', []).append(c)
+        return c
+
     def fresh_any(self, st):
         base = 'any!%d' % next(st.fresh_counter)
         return self.sym_value(st, self.T_ANY, base)
@@ -573,15 +603,14 @@ class Engine:
         nr = st.next_ref_term()
         for name in list(st.H):
             arr = st.H[name]
-            new = st.fresh('hv!' + name, arr.sort())
+            new = self.fresh_arr(st, 'hv!' + name, arr.sort())
             if keep_trace and (name.startswith('k:ev.') or name in ('LEN', 'ER', 'EL', 'KIND')):
                 # events and snapshot lists referenced from the trace are immutable ghost objects
-                r = z3.Int('hv!r')
                 if name.startswith('k:ev.'):
-                    st.pc.append(z3.ForAll([r], z3.Implies(r < nr, z3.Select(new, r) == z3.Select(arr, r))))
+                    new = st.merged(name, arr, new, nr)
                 else:
                     g = self.ufun('ghostobj', 1, z3.BoolSort())
-                    st.pc.append(z3.ForAll([r], z3.Implies(z3.Or(r == tr, g(r)), z3.Select(new, r) == z3.Select(arr, r))))
+                    new = st.merged(name, arr, new, z3.IntVal(0), (), lambda r: z3.Or(r == tr, g(r)))
             st.H[name] = new
         st.havoc_alloc()
         st.ghost['havoc_all'] = True
@@ -695,19 +724,14 @@ class Engine:
             for name in list(st.H):
                 if name.startswith('k:ev.'):
                     arr = st.H[name]
-                    new = st.fresh('hv!' + name, arr.sort())
-                    r = z3.Int('hv!r')
-                    st.pc.append(z3.ForAll([r], z3.Implies(r < nr, z3.Select(new, r) == z3.Select(arr, r))))
-                    st.H[name] = new
+                    new = self.fresh_arr(st, 'hv!' + name, arr.sort())
+                    st.H[name] = st.merged(name, arr, new, nr)
             # snapshot lists created by the callee
             for name in ('LEN', 'EL', 'ER', 'KIND'):
                 if name in st.H:
                     arr = st.H[name]
-                    new = st.fresh('hv!' + name, arr.sort())
-                    r = z3.Int('hv!r')
-                    extra = [r != tr] if name in ('LEN', 'ER') else []
-                    st.pc.append(z3.ForAll([r], z3.Implies(z3.And(r < nr, *extra), z3.Select(new, r) == z3.Select(arr, r))))
-                    st.H[name] = new
+                    new = self.fresh_arr(st, 'hv!' + name, arr.sort())
+                    st.H[name] = st.merged(name, arr, new, nr, [tr] if name in ('LEN', 'ER') else [])
             st.havoc_alloc()
         for name, tgt in allowed.items():
             if name.startswith('@'):
@@ -718,10 +742,10 @@ class Engine:
                 continue
             arr = st.H[name]
             if isinstance(tgt, str) and tgt == '*':
-                st.H[name] = st.fresh('hv!' + name, arr.sort())
+                st.H[name] = self.fresh_arr(st, 'hv!' + name, arr.sort())
             else:
                 for r in tgt:
-                    arr = z3.Store(arr, r, st.fresh('hv!' + name, arr.sort().range()))
+                    arr = z3.Store(arr, r, self.fresh_arr(st, 'hv!' + name, arr.sort().range()))
                 st.H[name] = arr
 
     # ------------------------------------------------------------------
@@ -777,6 +801,9 @@ class Engine:
                 return self.pure_app(it, f, args)
             raise EngineError('call-out in spec mode (line %s)' % st.cur_line)
         u = self.unit
+        if f.T is not None and f.T.pure:
+            self.result.assumptions.add('callables declared pure (address predicates, seed/key algorithms) are deterministic functions of their arguments and have no effect on the stack')
+            return self.pure_app(it, f, args)
         ev = self.emit_event(it, st, f.t, args, kwargs)
         # call-out assertions of the unit
         checks = u.of('callout_check')
@@ -965,6 +992,8 @@ class Engine:
                 st.pc.append(iv >= 0)
                 # the loop variable keeps its value from the previous iteration (if any)
             self.assume_invariants(it, invs)
+            st.loop_head = getattr(st, 'loop_head', [])
+            st.loop_head.append((st.snapshot(), dict(st.locals), st.clock))
             # loop condition
             if is_for:
                 i = it.idx(st.locals[ivar])
@@ -995,6 +1024,9 @@ class Engine:
             except ContinueEx:
                 pass
             self.assert_invariants(it, invs, od, 'inv_keep', node)
+            bes = u.loop_clauses(qual, od, 'body_ensures')
+            if bes:
+                self.assert_invariants(it, bes, od, 'body_post', node)
             if decs:
                 st.frames.append(self.spec_frame(st, dict(st.locals)))
                 st.spec += 1
@@ -1043,48 +1075,6 @@ class Engine:
             st.spec -= 1
             st.frames.pop()
 
-    def havoc_loop(self, it, node, od):
-        """havoc what the loop body may modify (syntactic over-approximation)"""
-        st = it.st
-        fi = st.frames[-1].func
-        scan = LoopScan(self, it, fi)
-        for s in node.body:
-            scan.stmt(s)
-        if isinstance(node, ast.For):
-            scan.target(node.target)
-        # locals
-        for n in scan.names:
-            cur = st.locals.get(n)
-            if cur is None:
-                continue
-            st.locals[n] = self.havoc_like(it, st, cur, n)
-        nr_entry = st.next_ref_term()
-        if scan.everything:
-            self.havoc_everything(st)
-            return
-        touched = {}     # array name -> set of ref terms or '*'
-        for name, ref in scan.arrays:
-            if isinstance(ref, str) and ref == '*':
-                touched[name] = '*'
-            elif not _is_star(touched.get(name)):
-                touched.setdefault(name, [])
-                if ref is not None and all(ref.get_id() != r.get_id() for r in touched[name]):
-                    touched[name].append(ref)
-        for name, tg in touched.items():
-            sort = self.array_sort(st, name)
-            if sort is None:
-                continue
-            arr = st.harr(name, sort)
-            if isinstance(tg, str) and tg == '*':
-                st.H[name] = st.fresh('lp!' + name, arr.sort())
-            else:
-                new = st.fresh('lp!' + name, arr.sort())
-                r = z3.Int('lp!r')
-                conds = [r < nr_entry] + [r != t for t in tg]
-                st.pc.append(z3.ForAll([r], z3.Implies(z3.And(conds), z3.Select(new, r) == z3.Select(arr, r))))
-                st.H[name] = new
-        st.havoc_alloc()
-
     def array_sort(self, st, name):
         if name in st.H:
             return st.H[name].sort().range()
@@ -1100,8 +1090,11 @@ class Engine:
             return VAL_SORT
         if name.endswith('#has') or name.endswith('#tag') or name.endswith('#none') or name.endswith('#cls'):
             return z3.IntSort()
+        if name in ('k:ev.fn', 'k:ev.n'):
+            return z3.IntSort()
         if name.startswith('k:ev.'):
-            return None     # created on demand at fresh refs only
+            base, _, suf = name.partition('#')
+            return self.slot_sort(st, self.T_ANY, '#' + suf) if suf else None
         return None
 
     def havoc_like(self, it, st, cur, n):
@@ -1149,7 +1142,9 @@ class Engine:
                 v = it.eval(node.args[0])
                 if isinstance(v, VList):
                     v = seq_of(st, v)
-                elif isinstance(v, (VRef, VTable, VQueue)) and not (isinstance(v, VRef) and v.cls == 'Event'):
+                elif isinstance(v, VRef) and v.cls != 'Event':
+                    v = VRef(v.t, v.cls, old=True)
+                elif isinstance(v, (VTable, VQueue)):
                     raise EngineError('old(%s) yields an object reference; wrap the whole expression in old()' % ast.unparse(node.args[0]))
                 return v
             finally:
@@ -1166,6 +1161,25 @@ class Engine:
             finally:
                 st.frames.pop()
                 st.heap_stack.pop()
+        if name == 'at_head':
+            if not getattr(st, 'loop_head', None):
+                raise EngineError('at_head() outside a loop body postcondition')
+            heap, locs, clk = st.loop_head[-1]
+            st.heap_stack.append(heap)
+            st.frames.append(Frame(st.frames[-1].func, dict(st.frames[-1].locals, **locs), st.frames[-1].cls))
+            saved_clock = st.clock
+            st.clock = clk
+            try:
+                v = it.eval(node.args[0])
+                if isinstance(v, VList):
+                    v = seq_of(st, v)
+                return v
+            finally:
+                st.clock = saved_clock
+                st.frames.pop()
+                st.heap_stack.pop()
+        if name == 'count':
+            return self.spec_count(it, node)
         if name == 'implies':
             a = it.gtruth(node.args[0])
             b = it.gtruth(node.args[1])
@@ -1206,10 +1220,12 @@ class Engine:
                         return VBool(z3.simplify(z3.And(parts)) if parts else z3.BoolVal(True))
                     return VBool(z3.simplify(z3.Or(parts)) if parts else z3.BoolVal(False))
             st.frames.append(Frame(st.frames[-1].func, env, st.frames[-1].cls))
+            st.bound_vars.extend(vs)
             try:
                 body = it.gtruth(lam.body)
             finally:
                 st.frames.pop()
+                del st.bound_vars[-len(vs):]
             if name == 'forall':
                 f = z3.ForAll(vs, z3.Implies(z3.And(guards), body) if guards else body)
             else:
@@ -1225,10 +1241,12 @@ class Engine:
             if len(names) > 1:
                 env[names[1]] = mk_value(st, tb.val, z3.Select(table_val(st, tb), kv))
             st.frames.append(Frame(st.frames[-1].func, env, st.frames[-1].cls))
+            st.bound_vars.append(kv)
             try:
                 body = it.gtruth(lam.body)
             finally:
                 st.frames.pop()
+                st.bound_vars.pop()
             return VBool(z3.ForAll([kv], z3.Implies(z3.Select(table_dom(st, tb), kv), body)))
         if name == 'unchanged':
             conj = []
@@ -1242,6 +1260,46 @@ class Engine:
                 conj.append(self.same_value(it, cur, old))
             return VBool(z3.simplify(z3.And(conj)))
         raise EngineError('spec special ' + name)
+
+    def spec_count(self, it, node):
+        """count(lambda j: P(j), lo, hi) = #{ j in [lo, hi) : P(j) } as an axiomatised function of hi"""
+        st = it.st
+        lam = node.args[0]
+        nm = lam.args.args[0].arg
+        lo = z3.simplify(it.idx(it.eval(node.args[1])))
+        hi = z3.simplify(it.idx(it.eval(node.args[2])))
+        cv = z3.Int('cq!v')
+
+        def body_at(t):
+            env = dict(st.locals)
+            env[nm] = it.from_idx(t)
+            st.frames.append(Frame(st.frames[-1].func, env, st.frames[-1].cls))
+            st.bound_vars.append(t)
+            try:
+                return z3.simplify(it.gtruth(lam.body))
+            finally:
+                st.frames.pop()
+                st.bound_vars.pop()
+        b = body_at(cv)
+        key = ('count', b.get_id(), lo.get_id())
+        cache = st.ghost.setdefault('counts', {})
+        if key not in cache:
+            F = z3.Function('count!%d' % next(st.fresh_counter), z3.IntSort(), z3.IntSort())
+            cache[key] = (F, b)
+            a_, b_ = z3.Int('cq!a'), z3.Int('cq!b')
+            st.pc.append(F(lo) == 0)
+            # bounds and monotonicity (consequences of the definition by induction; trusted lemma of the count theory)
+            st.pc.append(z3.ForAll([a_], z3.Implies(a_ >= lo, z3.And(F(a_) >= 0, F(a_) <= a_ - lo)), patterns=[F(a_)]))
+            st.pc.append(z3.ForAll([a_, b_], z3.Implies(z3.And(lo <= a_, a_ <= b_), z3.And(F(a_) <= F(b_), F(b_) - F(a_) <= b_ - a_)),
+                                   patterns=[z3.MultiPattern(F(a_), F(b_))]))
+            self.result.assumptions.add('count(): bounds and monotonicity lemmas of the counting function are axioms (they follow from its recursive definition by induction)')
+        F, b = cache[key]
+        # the defining step, instantiated where it is used: F(hi) = F(hi-1) + [P(hi-1)] and F(hi+1) = F(hi) + [P(hi)]
+        if not _mentions(hi, st.bound_vars) and not _mentions(lo, st.bound_vars):
+            for t in (hi, z3.simplify(hi + 1)):
+                bn = z3.substitute(b, (cv, z3.simplify(t - 1)))
+                st.pc_fact(z3.Implies(t > lo, F(t) == F(z3.simplify(t - 1)) + z3.If(bn, 1, 0)))
+        return it.from_idx(F(hi))
 
     def same_value(self, it, a, b):
         st = it.st
@@ -1407,7 +1465,7 @@ class LoopScan:
                 self.callee(c)
             # a call through a field holding a callable (or any unknown attribute call) is a call-out
             if not cands and f.attr not in LIST_MUTATORS and f.attr not in ('get', 'copy', 'to_bytes', 'from_bytes', 'time', 'format', 'keys', 'items', 'qsize'):
-                self.callout()
+                self.callout(node)
         elif isinstance(f, ast.Name):
             if f.id in ('print', 'len', 'min', 'max', 'int', 'range', 'enumerate', 'callable', 'isinstance', 'hex', 'str', 'bool', 'abs'):
                 return
@@ -1421,16 +1479,26 @@ class LoopScan:
                     self.callee(ci.methods['__init__'], fresh_self=True)
                 return
             if f.id in self.it.st.locals:
-                self.callout()
+                self.callout(node)
         elif isinstance(f, ast.Subscript):
-            self.callout()
+            self.callout(node)
 
-    def callout(self):
+    def callout(self, node=None):
         tr = z3.IntVal(TRACE_REF)
         for nm in ('LEN', 'ER'):
             self.arrays.append((nm, tr))
         for nm in ('LEN', 'EL', 'ER', 'KIND'):
             self.arrays.append((nm, None))
+        # event records are written at fresh refs only
+        slots = ['a%d' % k for k in range(10)]
+        if node is not None:
+            slots = ['a%d' % k for k in range(len(node.args) + 2)] + ['k_' + kw.arg for kw in node.keywords if kw.arg]
+        for nm in ('k:ev.fn', 'k:ev.n'):
+            self.arrays.append((nm, None))
+        for sl in slots:
+            for suf in self.eng.slot_suffixes(self.eng.T_ANY):
+                self.arrays.append(('k:ev.%s%s' % (sl, suf), None))
+            self.arrays.append(('k:ev.%s#cls' % sl, None))
         eff = [ast.literal_eval(c.args[0]) for c in self.eng.unit.of('effects')]
         if eff and eff[0] == 'everything':
             self.everything = True
@@ -1441,7 +1509,11 @@ class LoopScan:
         self.seen.add(fi.key)
         pol = self.eng.call_policy(fi)
         if pol == 'opaque':
-            self.everything = True
+            eff = [ast.literal_eval(c.args[0]) for c in self.eng.unit.of('effects')]
+            if eff and eff[0] == 'everything':
+                self.everything = True
+            else:
+                self.callout()
             return
         if pol == 'contract':
             cu = self.eng.units_by_key.get(fi.key, [None])[0]
@@ -1485,7 +1557,6 @@ def _resolve_later(scan, it):
     scan.arrays = out
 
 
-_orig_havoc_loop = Engine.havoc_loop
 
 
 def _havoc_loop(self, it, node, od):
@@ -1525,13 +1596,10 @@ def _havoc_loop(self, it, node, od):
                     continue
         arr = st.harr(name, sort)
         if isinstance(tg, str) and tg == '*':
-            st.H[name] = st.fresh('lp!' + name, arr.sort())
+            st.H[name] = self.fresh_arr(st, 'lp!' + name, arr.sort())
         else:
-            new = st.fresh('lp!' + name, arr.sort())
-            r = z3.Int('lp!r')
-            conds = [r < nr_entry] + [r != t for t in tg]
-            st.pc.append(z3.ForAll([r], z3.Implies(z3.And(conds), z3.Select(new, r) == z3.Select(arr, r))))
-            st.H[name] = new
+            new = self.fresh_arr(st, 'lp!' + name, arr.sort())
+            st.H[name] = st.merged(name, arr, new, nr_entry, tg)
     st.havoc_alloc()
 
 
